@@ -303,7 +303,7 @@ pub(crate) fn apply(c: &mut Cur, m: &mut Model, op: Op, sym: &Probe, levels: u8)
 }
 
 /// Run a concrete operation schema (symbolic keys, one symbolic probe) on a fresh cursor.
-pub(crate) fn run_schema(layout: u8, ops: &[Op], minlen: usize, maxlen: usize, probe_max: usize) {
+pub(crate) fn run_schema(layout: u8, ops: &[Op], minlen: usize, maxlen: usize, probe_max: usize) -> (u32, bool) {
     reset_tables();
     let l = build_layout(layout, minlen, maxlen);
     let sym = any_probe(probe_max);
@@ -329,14 +329,8 @@ pub(crate) fn run_schema(layout: u8, ops: &[Op], minlen: usize, maxlen: usize, p
         i += 1;
     }
     let qr = rank(&sym.b[..sym.len]);
-    if l.n >= 2 {
-        kani::cover!(qr < rank(key_of(0)));
-        kani::cover!(qr > rank(key_of(l.n - 1)));
-        kani::cover!(qr == rank(key_of(1)));
-        kani::cover!(qr > rank(key_of(0)) && qr < rank(key_of(1)));
-    }
-    kani::cover!(m.valid || l.n == 0);
     mem::forget(c);
+    (qr, m.valid)
 }
 
 // ------------------------------------------------------------------------------------------------ S-form
